@@ -646,13 +646,8 @@ def monitorRt (q : RtReq) (obs : String) : String := Id.run do
   let calls := splitOr pubS ";"
   let pOk := (calls.filter (·.startsWith "ok:")).length
   let pErr := (calls.filter (·.startsWith "e:inner:")).length
-  -- handler middleware: one observation per invocation (and per application of the middleware: it carries no
-  -- idempotency mark; the property speaks of the middleware applied once, km = 1); success iff the handler returned
-  -- nil without panicking
   let hOk := (q.outs.filter (fun o => match o with | .ok _ => true | _ => false)).length
   if inv ≠ q.outs.length then return "violated:handler_invocations"
-  if metricCount ms "hdl" lblTrue ≠ q.km * hOk ∨ metricCount ms "hdl" lblFalse ≠ q.km * (inv - hOk) ∨ famTotal ms "hdl" ≠ q.km * inv then
-    return "violated:metrics_handler_once"
   if q.kp > 0 then
     if metricCount ms "pub" lblTrue ≠ pOk ∨ metricCount ms "pub" lblFalse ≠ pErr ∨ famTotal ms "pub" ≠ calls.length then
       return "violated:metrics_publish_once"
@@ -663,6 +658,12 @@ def monitorRt (q : RtReq) (obs : String) : String := Id.run do
       return "violated:metrics_subscribe_once"
   else if famTotal ms "sub" ≠ 0 then return "violated:metrics_foreign_series"
   if ms.any (fun m => m.1 ≠ "pub" ∧ m.1 ≠ "sub" ∧ m.1 ≠ "hdl") then return "violated:metrics_foreign_series"
+  -- handler middleware (checked last, so that this rule means: everything else is as the property says): every
+  -- invocation is observed exactly ONCE, however often the middleware is registered (km ≥ 1), success iff the handler
+  -- returned nil without panicking.  km = 0 (middleware not registered) is outside the property.
+  if q.km ≥ 1 then
+    if metricCount ms "hdl" lblTrue ≠ hOk ∨ metricCount ms "hdl" lblFalse ≠ inv - hOk ∨ famTotal ms "hdl" ≠ inv then
+      return "violated:metrics_handler_once"
   return "ok"
 
 def splitRec (toks : List String) : List String × List String :=
